@@ -429,6 +429,36 @@ pub fn gen_elem(rng: &mut Rng, uniq: &mut u32, allow_indef: bool) -> Elem {
                 1 => ('Q', format!("{:o}", v)),
                 _ => ('B', format!("{:b}", v)),
             };
+            // now and then more digits than 64 bits hold: leading zeros (same value) or
+            // significant ones (no token can carry the value: must be refused, see
+            // model::nondec_wide)
+            let digits = match rng.below(16) {
+                0 => {
+                    let full = match radix {
+                        'H' => 16,
+                        'Q' => 22,
+                        _ => 64,
+                    };
+                    let z = full + 1 + rng.usize_below(4) - digits.len().min(full);
+                    format!("{}{}", "0".repeat(z), digits)
+                }
+                1 => {
+                    let full: usize = match radix {
+                        'H' => 16,
+                        'Q' => 22,
+                        _ => 64,
+                    };
+                    let pad = full.saturating_sub(digits.len());
+                    let lead = match radix {
+                        // (22 octal digits hold 66 bits: the leading digit decides)
+                        'Q' => *rng.pick(&["2", "7", "10"]),
+                        'H' => *rng.pick(&["1", "F", "10"]),
+                        _ => *rng.pick(&["1", "10"]),
+                    };
+                    format!("{}{}{}", lead, "0".repeat(pad), digits)
+                }
+                _ => digits,
+            };
             let radix = if rng.chance(1, 2) { radix.to_ascii_lowercase() } else { radix };
             let digits = if rng.chance(1, 2) { digits.to_ascii_lowercase() } else { digits };
             Elem::NonDec { radix, digits }
